@@ -40,6 +40,7 @@ func main() {
 		os.Exit(2)
 	}
 	rep := core.NewReport()
+	rules.Deep = *tier == "thorough"
 	configs := []string{""}
 	if *tier == "thorough" && spec.DebugConfigToo {
 		configs = append(configs, "validatedebug")
